@@ -17,7 +17,8 @@ THEOREMS = ["Pypika.C08.step_congr", "Pypika.C08.swap", "Pypika.C08.bubble", "Py
             "Pypika.B.step_simple", "Pypika.B.clause_calls_commute", "Pypika.B.clause_interleavings_agree",
             "Pypika.B.step_frame", "Pypika.B.run_frame", "Pypika.B.run_keeps_wheres", "Pypika.B.run_keeps_selects", "Pypika.B.run_keeps_from",
             # locality + frame => independent calls commute, for all arguments and states (BuilderLocal*.lean, BuilderCommute.lean)
-            "Pypika.B.step_local", "Pypika.B.calls_commute", "Pypika.B.calls_commute_iff"]
+            "Pypika.B.step_local", "Pypika.B.calls_commute", "Pypika.B.calls_commute_iff",
+            "Pypika.B.run_swap", "Pypika.B.run_traceEq", "Pypika.B.not_indep_of_common_write"]
 AGREE = ["Pypika.Agree.writes_agree", "Pypika.Agree.reads_agree", "Pypika.Agree.methods_covered"]
 TRUSTED = ["the slot state machine (Build.lean) abstracts call payloads to identifiers; that each real builder method writes "
            "exactly the slot the model says is checked by running every generated call sequence through both and comparing "
